@@ -388,6 +388,36 @@ func nearbyRuleText(rule string, tick int) string {
 			names = append(names, i)
 		}
 	}
+	if tick%24 == 13 {
+		// the rule with every run of blanks, tabs and line breaks OUTSIDE string literals collapsed to one blank: for a
+		// malformed text (two blanks, a tab, a newline before the blank) this is often its well-formed sibling
+		var sb strings.Builder
+		inS, run := false, false
+		for i := 0; i < len(rule); i++ {
+			c := rule[i]
+			switch {
+			case inS && c == '\\' && i+1 < len(rule):
+				sb.WriteByte(c)
+				i++
+				sb.WriteByte(rule[i])
+				continue
+			case c == '"':
+				inS = !inS
+			}
+			if !inS && (c == ' ' || c == '\t' || c == '\n' || c == '\r') {
+				if !run {
+					sb.WriteByte(' ')
+				}
+				run = true
+				continue
+			}
+			run = false
+			sb.WriteByte(c)
+		}
+		if v := sb.String(); v != rule {
+			return v
+		}
+	}
 	if len(blanks) > 0 && tick%16 == 5 {
 		i := blanks[tick%len(blanks)]
 		return string(b[:i]) + " " + string(b[i:])
@@ -426,7 +456,35 @@ func evalFresh(rule string, obj map[string]interface{}) Obs {
 		t, f := errorText(err)
 		return Obs{E: "newerr", D: "-", ErrText: t, TextFail: f}
 	}
-	return observeProcess(ev, obj)
+	o := observeProcess(ev, obj)
+	crossCheckEntryPoints(rule, obj, &o)
+	return o
+}
+
+// crossCheckEntryPoints: every fourth fresh evaluation is repeated through rules.Evaluate and parser.Evaluate; they must
+// give the verdict (and, for rules.Evaluate, the error class) NewEvaluator+Process gave - the properties are stated for the
+// library, whichever entry point is used. A disagreement is reported as an outcome no property allows (class `entry`).
+var crossTick int
+
+func crossCheckEntryPoints(rule string, obj map[string]interface{}, o *Obs) {
+	crossTick++
+	if crossTick%4 != 0 || o.E == "escaped" {
+		return
+	}
+	saved := append([]int(nil), callLog...)
+	defer func() { callLog = append(callLog[:0], saved...) }()
+	rv, re, resc := rulesEvaluate(rule, obj)
+	pv, pesc := parserEvaluate(rule, obj)
+	if resc != "" || pesc != "" {
+		return // an escaping panic is C07's business (and panicking Stringers may well behave differently per call)
+	}
+	if o.E == "panic" || re == "panic" {
+		return
+	}
+	if rv != o.V || re != o.E || pv != o.V {
+		o.ErrText = fmt.Sprintf("entry points disagree: NewEvaluator+Process (%v, %s), rules.Evaluate (%v, %s), parser.Evaluate %v", o.V, o.E, rv, re, pv)
+		o.E = "entry"
+	}
 }
 
 func rulesEvaluate(rule string, obj map[string]interface{}) (v bool, e string, esc string) {
@@ -456,8 +514,22 @@ func rulesEval(rule string, obj map[string]interface{}) (bool, error) {
 
 // evalOn evaluates on a fresh evaluator or (when poison != nil) on an evaluator that has first processed `poison`
 // objects: every property is stated for Process in general, so its projection must also hold after earlier calls.
+// mutableStringers: the *strMut values reachable through nested maps of obj
+func mutableStringers(v interface{}, out *[]*strMut) {
+	switch x := v.(type) {
+	case map[string]interface{}:
+		for _, e := range x {
+			mutableStringers(e, out)
+		}
+	case *strMut:
+		*out = append(*out, x)
+	}
+}
+
 func evalOn(rule string, obj map[string]interface{}, poison []map[string]interface{}) Obs {
-	if len(poison) == 0 {
+	var muts []*strMut
+	mutableStringers(obj, &muts)
+	if len(poison) == 0 && len(muts) == 0 {
 		return evalFresh(rule, obj)
 	}
 	ev, err, esc := newEvaluator(rule)
@@ -470,6 +542,17 @@ func evalOn(rule string, obj map[string]interface{}, poison []map[string]interfa
 	}
 	for _, p := range poison {
 		observeProcess(ev, p)
+	}
+	if len(muts) > 0 {
+		// the same object once before with OTHER texts in its mutable Stringers (same pointers): the evaluation under
+		// test must read the texts of now
+		for _, m := range muts {
+			m.s = "zq" + m.s
+		}
+		observeProcess(ev, obj)
+		for _, m := range muts {
+			m.s = strings.TrimPrefix(m.s, "zq")
+		}
 	}
 	return observeProcess(ev, obj)
 }
